@@ -15,6 +15,8 @@ namespace GFO
 def INT64_MIN : Int := -9223372036854775808
 def INT64_MAX : Int := 9223372036854775807
 
+def absQ (q : Rat) : Rat := if q < 0 then -q else q
+
 inductive F where
   | fin (q : Rat)
   | pinf
@@ -82,7 +84,7 @@ def neg : F → F
   | nan => nan
 
 def abs : F → F
-  | fin q => fin (if q < 0 then -q else q)
+  | fin q => fin (absQ q)
   | pinf => pinf
   | ninf => pinf
   | nan => nan
@@ -136,6 +138,8 @@ inductive Err where
   | needMore        -- a scripted oracle ran out of entries (protocol only)
   | other (s : String)
 deriving DecidableEq, Repr, Inhabited
+
+deriving instance DecidableEq for Except
 
 def Err.toString : Err → String
   | .indexError => "IndexError"
